@@ -2,6 +2,7 @@
 conditions of the theorems -/
 import CtyModel.d01Side
 import CtyModel.Lemmas.d01Mul
+import CtyModel.Lemmas.d01Len
 namespace CtyModel
 namespace D01
 open Value
@@ -38,6 +39,8 @@ theorem sideMul_eq (w₁ w₂ o₁ o₂ : Value) :
     D01.sideMul w₁ w₂ o₁ o₂ = (CohMul w₁ w₂ && ZeroBoundsNumber w₁ o₁ && ZeroBoundsNumber w₂ o₂) := by
   simp only [D01.sideMul, CohMul, cohOK_eq, numBounds_eq, zeroBoundsNumber_eq]
   rfl
+
+theorem setCountOK_eq : @D01.setCountOK = @SetCountOK := rfl
 
 end D01
 end CtyModel
